@@ -396,7 +396,7 @@ func TestVerifC18(t *testing.T) { //nolint:gocognit,cyclop,maintidx
 	sched.Perturb(0.3)
 	sched.OnlyPoints(func(name string) bool { return strings.HasPrefix(name, "dc.") })
 
-	n := kit.N(150, 1500)
+	n := kit.N(150, 600)
 	var maxAssigned atomic.Int64
 	run.Parallel(n, 8, func(i int) {
 		r := run.CaseRand(i)
